@@ -1,112 +1,102 @@
 import CodeLimit.Spec.Cache
 /-!
-# A toy instance of the byte contract of C10 (non-vacuity of `ByteContract`)
+# A small instance of the byte contract of C10 (non-vacuity of `ByteContract` inside `Props/C10.lean`)
+
+The instance for the real reader and writer is `C10real.real_contract` (it needs the whole
+pipeline, which imports `Props/C10.lean`).  This one has the universe of `C09.exP`: paths,
+contents, checksums and entries are numbers, the checksum is the identity (injective, NOT
+constant), `analyze p c = 10 * p + c`.  A report is written as three bytes `p+2, h+2, e+2` per row,
+an end mark `0` and a trailing blank `1`; the reader accepts exactly the complete texts with or
+without the trailing blank.
 -/
 namespace CL.C10
 open CL.Cache
 
-/-- The byte contract is satisfiable: a toy serialisation of reports over one-element types
-(a report is then just a number of rows): `n` ones, a zero, a trailing blank. -/
-def toyWrite (r : Report Unit Unit Unit) : List Nat := List.replicate r.length 1 ++ [0, 32]
+def toyP : Params Nat Nat Nat Nat (List Nat) Nat :=
+  { analyze := fun p c => 10 * p + c, hash := id, selected := fun e p => !e.contains p, cur := 1 }
 
-def toyRead (bs : List Nat) : CacheFile Unit Unit Unit Nat :=
-  let n := (bs.takeWhile (· == 1)).length
-  if bs = List.replicate n 1 ++ [0] ∨ bs = List.replicate n 1 ++ [0, 32] then
-    .doc 1 (List.replicate n ((), (), ()))
-  else .junk .unreadable
+def toyWrite : Report Nat Nat Nat → List Nat
+  | [] => [0, 1]
+  | (p, h, e) :: r => (p + 2) :: (h + 2) :: (e + 2) :: toyWrite r
 
-def toyP : Params Unit Unit Unit Unit Unit Nat :=
-  { analyze := fun _ _ => (), hash := fun _ => (), selected := fun _ _ => true, cur := 1 }
+def toyDec : List Nat → Option (Report Nat Nat Nat)
+  | [0] => some []
+  | [0, 1] => some []
+  | a :: b :: c :: rest =>
+    if 2 ≤ a ∧ 2 ≤ b ∧ 2 ≤ c then (toyDec rest).map ((a - 2, b - 2, c - 2) :: ·) else none
+  | _ => none
 
-theorem takeWhile_ones (n : Nat) (t : List Nat) (ht : ∀ x, t.head? = some x → x ≠ 1) :
-    (List.replicate n 1 ++ t).takeWhile (· == 1) = List.replicate n 1 := by
-  induction n with
-  | zero =>
-    cases t with
-    | nil => rfl
-    | cons x t =>
-      have : x ≠ 1 := ht x rfl
-      simp [this]
-  | succ n ih => simp [List.replicate_succ, ih]
+def toyRead (bs : List Nat) : CacheFile Nat Nat Nat Nat :=
+  match toyDec bs with
+  | some r => .doc 1 r
+  | none => .junk .unreadable
 
-theorem unit_report_eq (r : Report Unit Unit Unit) : List.replicate r.length ((), (), ()) = r := by
+def toyWs (b : Nat) : Bool := b == 1
+
+theorem toyDec_write (r : Report Nat Nat Nat) : toyDec (toyWrite r) = some r := by
   induction r with
   | nil => rfl
-  | cons x r ih => simp [List.replicate_succ, ih]
+  | cons x r ih =>
+    obtain ⟨p, h, e⟩ := x
+    simp [toyWrite, toyDec, ih]
 
-theorem toy_prefix (n : Nat) (p : List Nat) (hp : p <+: List.replicate n 1 ++ [0, 32]) :
-    (∃ k, k ≤ n ∧ p = List.replicate k 1) ∨ p = List.replicate n 1 ++ [0] ∨
-      p = List.replicate n 1 ++ [0, 32] := by
-  obtain ⟨t, ht⟩ := hp
-  have hlen : p.length + t.length = n + 2 := by
-    have := congrArg List.length ht
-    simpa using this
-  have hp' : p = (List.replicate n 1 ++ [0, 32]).take p.length := by
-    rw [← ht]; simp
-  by_cases h1 : p.length ≤ n
-  · left
-    refine ⟨p.length, h1, ?_⟩
-    rw [hp', List.take_append_of_le_length (by simpa using h1)]
-    simp [List.take_replicate, Nat.min_eq_left h1]
-  · right
-    have h2 : p.length = n + 1 ∨ p.length = n + 2 := by omega
-    rcases h2 with h2 | h2
-    · left
-      rw [hp', h2, List.take_append]
-      simp
-    · right
-      rw [hp', h2, List.take_of_length_le (by simp)]
+/-- a prefix of a written report: either it is cut inside the rows or the end mark, or only the
+trailing blank is missing, or nothing is missing -/
+theorem toyDec_prefix (r : Report Nat Nat Nat) (p : List Nat) (hp : p <+: toyWrite r) :
+    (toyDec p = none ∧ ∃ b ∈ (toyWrite r).drop p.length, toyWs b = false) ∨
+    (toyDec p = some r ∧ ∀ b ∈ (toyWrite r).drop p.length, toyWs b = true) := by
+  induction r generalizing p with
+  | nil =>
+    obtain ⟨t, ht⟩ := hp
+    match p, ht with
+    | [], _ => exact Or.inl ⟨rfl, 0, by simp [toyWrite], rfl⟩
+    | [a], ht =>
+      simp only [toyWrite, List.cons_append, List.nil_append, List.cons.injEq] at ht
+      obtain ⟨rfl, rfl⟩ := ht
+      exact Or.inr ⟨rfl, by simp [toyWrite, toyWs]⟩
+    | [a, b], ht =>
+      simp only [toyWrite, List.cons_append, List.nil_append, List.cons.injEq] at ht
+      obtain ⟨rfl, rfl, _⟩ := ht
+      exact Or.inr ⟨rfl, by simp [toyWrite]⟩
+    | a :: b :: c :: p, ht => simp [toyWrite] at ht
+  | cons x r ih =>
+    obtain ⟨pp, h, e⟩ := x
+    have hne : ∃ b ∈ [pp + 2], toyWs b = false := ⟨pp + 2, by simp, by simp [toyWs]⟩
+    obtain ⟨t, ht⟩ := hp
+    match p, ht with
+    | [], _ => exact Or.inl ⟨rfl, pp + 2, by simp [toyWrite], by simp [toyWs]⟩
+    | [a], ht =>
+      refine Or.inl ⟨?_, h + 2, by simp [toyWrite], by simp [toyWs]⟩
+      simp only [toyWrite, List.cons_append, List.nil_append, List.cons.injEq] at ht
+      obtain ⟨rfl, _⟩ := ht
+      simp [toyDec]
+    | [a, b], ht =>
+      refine Or.inl ⟨?_, e + 2, by simp [toyWrite], by simp [toyWs]⟩
+      simp only [toyWrite, List.cons_append, List.nil_append, List.cons.injEq] at ht
+      obtain ⟨rfl, rfl, _⟩ := ht
+      simp [toyDec]
+    | a :: b :: c :: p, ht =>
+      simp only [toyWrite, List.cons_append, List.cons.injEq] at ht
+      obtain ⟨rfl, rfl, rfl, ht⟩ := ht
+      rcases ih p ⟨t, ht⟩ with ⟨h1, h2⟩ | ⟨h1, h2⟩
+      · exact Or.inl ⟨by simp [toyDec, h1], by simpa [toyWrite] using h2⟩
+      · exact Or.inr ⟨by simp [toyDec, h1], by simpa [toyWrite] using h2⟩
 
-theorem drop_toy (n k : Nat) :
-    List.drop (n + k) (List.replicate n 1 ++ [0, 32]) = List.drop k [0, 32] := by
-  rw [List.drop_append]
-  simp
-
-theorem toy_contract : ByteContract toyP Nat (· == 32) toyRead toyWrite := by
+/-- the byte contract holds for this reader and writer, for ALL reports over the universe -/
+theorem toy_contract : ByteContract toyP Nat toyWs toyRead toyWrite (fun _ => True) := by
   constructor
-  · intro r
-    have htw : (toyWrite r).takeWhile (· == 1) = List.replicate r.length 1 :=
-      takeWhile_ones r.length [0, 32] (by simp)
-    simp only [toyRead, htw, List.length_replicate]
-    rw [if_pos (Or.inr (by rfl)), unit_report_eq]
-    rfl
-  · intro r p hp hb
-    rcases toy_prefix r.length p hp with ⟨k, hk, rfl⟩ | rfl | rfl
-    · have htw : (List.replicate k 1).takeWhile (· == 1) = List.replicate k 1 := by
-        have := takeWhile_ones k [] (by simp); simp at this ⊢
-      simp only [toyRead, htw, List.length_replicate]
-      rw [if_neg]
-      rintro (h | h) <;> · have := congrArg List.length h; simp at this
-    · exfalso
-      obtain ⟨b, hb, hw⟩ := hb
-      have hd : List.drop (List.replicate r.length 1 ++ [0]).length (toyWrite r) = [32] := by
-        simp only [toyWrite, List.length_append, List.length_replicate, List.length_cons, List.length_nil]
-        exact drop_toy r.length 1
-      rw [hd] at hb
-      simp at hb
-      subst hb; simp at hw
-    · exfalso
-      obtain ⟨b, hb, hw⟩ := hb
-      have hd : List.drop (List.replicate r.length 1 ++ [0, 32]).length (toyWrite r) = [] := by
-        simp only [toyWrite, List.length_append, List.length_replicate, List.length_cons, List.length_nil]
-        exact drop_toy r.length 2
-      rw [hd] at hb
-      simp at hb
-  · intro r p hp hb
-    rcases toy_prefix r.length p hp with ⟨k, hk, rfl⟩ | rfl | rfl
-    · exfalso
-      have h0 : (0 : Nat) ∈ (toyWrite r).drop (List.replicate k 1).length := by
-        simp only [toyWrite, List.length_replicate]
-        rw [List.drop_append_of_le_length (by simpa using hk)]
-        simp
-      have := hb 0 h0
-      simp at this
-    · have htw : ∀ t : List Nat, (∀ x, t.head? = some x → x ≠ 1) →
-          (List.replicate r.length 1 ++ t).takeWhile (· == 1) = List.replicate r.length 1 :=
-        takeWhile_ones r.length
-      simp only [toyRead, toyWrite, htw [0] (by simp), htw [0, 32] (by simp), List.length_replicate]
-      rw [if_pos (Or.inl trivial), if_pos (Or.inr trivial)]
-    · rfl
-
+  · intro r _
+    simp [toyRead, toyDec_write, toyP]
+  · intro r p _ hp hb
+    rcases toyDec_prefix r p hp with ⟨h1, _⟩ | ⟨_, h2⟩
+    · simp [toyRead, h1]
+    · obtain ⟨b, hb, hw⟩ := hb
+      rw [h2 b hb] at hw
+      cases hw
+  · intro r p _ hp hb
+    rcases toyDec_prefix r p hp with ⟨_, b, hb', hw⟩ | ⟨h1, _⟩
+    · rw [hb b hb'] at hw
+      cases hw
+    · simp [toyRead, h1, toyDec_write]
 
 end CL.C10
